@@ -2128,8 +2128,17 @@ func sectionRace(rng *vh.Rng) {
 		p := <-done
 		verifhook.Set("tmindex.syncChunks.betweenLocks", nil)
 		close(rRelease)
-		<-rDone
 		res.Eval(sec, fmt.Sprint(in))
+		if strings.Contains(p, "runtime error") || strings.Contains(p, "panic") {
+			// the notification panicked with the index lock held (no deferred unlock): in the real server the process is gone;
+			// here the lock stays taken, so this server is abandoned without waiting for the reader or stopping it
+			if len(p) > 1500 {
+				p = p[:1500]
+			}
+			fail("server-panic", "the index notification of a write ran while a reader was between the two locked sections of syncChunks and panicked (in the real server this goroutine is an RPC handler: the process dies)", p, "the write completes")
+			continue
+		}
+		<-rDone
 		if p != "" {
 			if len(p) > 1500 {
 				p = p[:1500]
